@@ -6,6 +6,7 @@ import random
 from vmon import core
 from vmon import dists as D
 from vmon import gens as G
+from vmon.gens import THOROUGH_SCALE as TS
 from vmon import oracles as O
 from vmon import search as S
 
@@ -318,7 +319,7 @@ def generate(tier, seed):
     yield "custom_self", {"seqs": ["CAAA", "CADD", "CAAK", "CDDD"], "k": 1, "dist": "lendiff", "maxcd": 0.0, "engines": ENG}, True
     pools = [G.universe("AC", 5), G.universe("ACD", 4), G.universe("AWY", 3)]
     names = list(D.DISTS)
-    n_rand = 5000 if thorough else 260
+    n_rand = 5000 * TS if thorough else 260
     for i in range(n_rand):
         pool = pools[i % len(pools)]
         dist = names[i % len(names)]
@@ -334,7 +335,7 @@ def generate(tier, seed):
             yield "custom_cross", {"refs": seqs, "queries": q, "k": min(k, 2), "dist": dist, "maxcd": r}, i < 60
         else:
             yield "custom_self", {"seqs": seqs, "k": k, "dist": dist, "maxcd": r, "engines": eng}, i < 60
-    n_rep = 200 if thorough else 16
+    n_rep = 200 * TS if thorough else 16
     for i in range(n_rep):
         seqs = G.repertoire(rng, rng.randint(20, 80))
         dist = names[i % len(names)]
@@ -343,7 +344,7 @@ def generate(tier, seed):
         yield "custom_self", {"seqs": seqs, "k": k, "dist": dist, "maxcd": rng.choice(radii),
                               "engines": ENG if k == 1 else ["nearest_neighbor", "symdel", "kdtree"]}, i < 4
     # one database object, distance function changing between lookups
-    for i in range(300 if thorough else 24):
+    for i in range(300 * TS if thorough else 24):
         pool = pools[i % len(pools)]
         refs = G.small_multiset(rng, pool, 3, 25)
         qs = G.small_multiset(rng, pool, 2, 8)
@@ -361,7 +362,7 @@ def generate(tier, seed):
                       "chain": "beta", "max_edits": 1, "edit_on_trimmed": True, "max_tcrdist": 20}, True
     yield "tcrdist", {"rows": [["CAVRDSNYQLIW", al_a[0], "CASSLGQAYEQYF", al_b[0]]],
                       "chain": "both", "max_edits": 2, "edit_on_trimmed": False, "max_tcrdist": 50}, True
-    n_t = 1500 if thorough else 80
+    n_t = 1500 * TS if thorough else 80
     for i in range(n_t):
         n = rng.randint(2, 30)
         rows = _tcr_rows(rng, n, al_a, al_b, short=(i % 9 == 0))
